@@ -39,10 +39,13 @@ View(st, gg, cc) ==
 
 Init == /\ g \in Geoms /\ c \in Cfgs
         /\ \E l \in Lists, m \in Multis :
-             s = [input |-> <<>>, cx |-> 0, list |-> l, texts |-> TextsOf(l), sel |-> <<>>, multi |-> m, cy |-> 0,
+             s = [input |-> <<>>, cx |-> 0, xoffset |-> 0, list |-> l, texts |-> TextsOf(l), sel |-> <<>>, multi |-> m, cy |-> 0,
                   offset |-> 0, count |-> MaxCount]
 
-Edit == \E q \in Queries : s' = [s EXCEPT !.input = q, !.cx = Len(q)] /\ UNCHANGED <<g, c>>
+(* a new query with the cursor somewhere in it; the prompt is redrawn (updatePromptOffset) *)
+Edit == \E q \in Queries : \E x \in {0, Len(q) \div 2, Len(q)} :
+           LET s1 == [s EXCEPT !.input = q, !.cx = x] IN
+           s' = [s1 EXCEPT !.xoffset = PromptOffset(s1, g, c)] /\ UNCHANGED <<g, c>>
 Move == \E d \in {-1, 1} : s' = View([s EXCEPT !.cy = s.cy + d], g, c) /\ UNCHANGED <<g, c>>
 Toggle == /\ s.multi > 0 /\ N(s) > 0
           /\ LET id == s.list[s.cy + 1] IN
@@ -50,20 +53,23 @@ Toggle == /\ s.multi > 0 /\ N(s) > 0
              ELSE Len(s.sel) < s.multi /\ s' = [s EXCEPT !.sel = Append(s.sel, id)]
           /\ UNCHANGED <<g, c>>
 NewList == \E l \in Lists : s' = View([s EXCEPT !.list = l, !.texts = TextsOf(l)], g, c) /\ UNCHANGED <<g, c>>
-Resize == \E g2 \in Geoms : g' = g2 /\ s' = View(s, g2, c) /\ UNCHANGED c
-Next == \/ "edit" \in Acts /\ Edit
-        \/ "move" \in Acts /\ Move
-        \/ "toggle" \in Acts /\ Toggle
-        \/ "list" \in Acts /\ NewList
-        \/ "resize" \in Acts /\ Resize
+Resize == \E g2 \in Geoms : g' = g2 /\ UNCHANGED c
+                              /\ LET s1 == View(s, g2, c) IN s' = [s1 EXCEPT !.xoffset = PromptOffset(s1, g2, c)]
+AEdit == "edit" \in Acts /\ Edit
+AMove == "move" \in Acts /\ Move
+AToggle == "toggle" \in Acts /\ Toggle
+ANewList == "list" \in Acts /\ NewList
+AResize == "resize" \in Acts /\ Resize
+Next == AEdit \/ AMove \/ AToggle \/ ANewList \/ AResize
 
 -----------------------------------------------------------------------------
 R == Render(s, g, c)
-Exact == QueryFits(s, g, c) /\ (InlineInfo(c) => InfoFits(s.input, s, g, c))
+Exact == InlineInfo(c) => InfoFits(QShown(s, g, c), s, g, c)
+Scrolled == s.xoffset > 0
 
 InvPlace == PlaceOK(g, c)
 InvRowCount == Len(R) = g.h
-InvWidth == Exact /\ InfoFits(s.input, s, g, c) => \A r \in 1..g.h : TW(R[r], g) <= g.w
+InvWidth == Exact /\ InfoFits(QShown(s, g, c), s, g, c) => \A r \in 1..g.h : TW(R[r], g) <= g.w
 (* the code-derived rendering satisfies the documented claims *)
 InvClaims == Exact => Claims(R, s, g, c)
 
@@ -84,6 +90,10 @@ InvRowsAreResults ==
         /\ IsPrefix(RTrim(Sub(s.texts[VisibleIx(r)], 1, 1)), RTrim(Sub(R[r] \o Spaces(Indent(c, g) + 1), Indent(c, g) + 1, Indent(c, g) + 1)))
 (* the recursive cut equals its declarative definition *)
 InvTakeW == \A id \in 0..5 : \A lim \in -1..(Len(TextOf(id)) + 2) : TakeW(TextOf(id), lim, g) = TakeWDecl(TextOf(id), lim, g)
+(* the cursor stays on the prompt line: what is shown before it fits, the offset never passes it *)
+InvCursorVisible == /\ 0 <= s.xoffset /\ s.xoffset <= s.cx
+                    /\ QBefore(s, g, c) = Sub(s.input, s.xoffset + 1, s.cx)
+                    /\ TW(QShown(s, g, c), g) <= PromptRoom(g, c)
 InvRTrim == \A r \in 1..g.h : R[r] = <<>> \/ R[r][Len(R[r])] # " "
 
 MCPointers == {<<">">>}
@@ -98,6 +108,8 @@ MCHlines == {<<>>, <<<<"x", "1">>>>, <<<<"x", "1">>, <<"x", "2">>>>}
 MCHlinesQ == {<<>>, <<<<"x", "1">>, <<"x", "2">>>>}
 MCLists == {<<>>, <<0>>, <<1, 0, 2>>, <<0, 1, 2, 3, 4, 5>>}
 MCListsQ == {<<>>, <<1, 0, 5>>, <<0, 1, 2, 3, 4>>}
+MCListsD == {<<>>, <<1, 0, 5>>}
+MCQueriesD == {<<>>, <<"a", " ", "W">>, <<"q", "u", "e", "r", "y", "l", "o", "n", "g", "e", "r">>}
 MCListsP == {<<>>, <<1, 0, 5, 2>>}
 MCListsC == {<<1, 2, 4, 5, 3>>}
 MCHeadersL == {<<<<"h", "e", "a", "d", "e", "r", " ", "t", "w", "o", " ", "!">>>>}
